@@ -3,6 +3,7 @@ package rules
 import (
 	"fmt"
 	"go/types"
+	"strings"
 
 	"yv/internal/prog"
 
@@ -462,6 +463,69 @@ func init() {
 			}
 			if n < 6 {
 				x.C.Vacuous(x.id()+" sites", n, 6)
+			}
+		}})
+}
+
+func init() {
+	register(&Rule{ID: "P.client", Min: 4, Text: "the client SDK brackets an attachment with presence changes: detachDocument runs Document.Update with an updater that calls Presence.Clear, returns on its error edge, and only then builds the change pack it sends with DetachDocument — so the clear travels in the same totally ordered change stream as every other presence change; attachDocument runs the updater that calls Presence.Initialize before it builds the pack, unless the caller set DisablePresence; after the detach response was applied the attachment is dropped",
+		Run: func(x *Ctx) {
+			update := x.P.FnObj(docPkg + ".(*Document).Update")
+			createPack := x.P.FnObj(docPkg + ".(*Document).CreateChangePack")
+			if update == nil || createPack == nil {
+				x.C.Unresolved(x.id(), "Document.Update / CreateChangePack")
+				return
+			}
+			calls := func(cl *ssa.Function, name string) bool {
+				for _, c := range prog.CallsIn(cl) {
+					if o := prog.CallObj(c); o != nil && o.Name() == name && o.Pkg() != nil && strings.HasSuffix(o.Pkg().Path(), "/presence") {
+						return true
+					}
+				}
+				return false
+			}
+			n := 0
+			for _, sp := range []struct{ fn, method string }{{"client.(*Client).detachDocument", "Clear"}, {"client.(*Client).attachDocument", "Initialize"}} {
+				fn := x.fn(sp.fn)
+				if fn == nil {
+					x.C.Unresolved(x.id(), sp.fn)
+					continue
+				}
+				k := "func=" + prog.FnName(fn)
+				var upd ssa.CallInstruction
+				for _, c := range callsToIn(fn, update) {
+					for _, cl := range closureArgs(c) {
+						if calls(cl, sp.method) {
+							upd = c
+						}
+					}
+				}
+				packs := callsToIn(fn, createPack)
+				n++
+				if upd == nil || len(packs) == 0 {
+					x.fail(k+" presence-"+sp.method+"-before-pack", x.fpos(fn), "the function no longer runs an updater that calls Presence."+sp.method+" before building its change pack")
+					continue
+				}
+				for _, pc := range packs {
+					if sp.method == "Clear" {
+						x.check(prog.Dominates(upd, pc), k+" presence-Clear-before-pack", x.pos(pc), "the clear is made before the pack is built", "the pack sent with DetachDocument is built without the presence clear: peers keep showing the detached client")
+					} else {
+						dp := x.P.Field("client.AttachOptions.DisablePresence")
+						x.guardedOrVia(k+" presence-Initialize-before-pack-unless-disabled", pc, []Cmp{isTrue(vpField(dp))}, []ssa.Instruction{upd},
+							"the pack is built after the initial presence, or presence is disabled", "the attach pack can be built without the initial presence change although presence is enabled")
+					}
+					if v, ok := upd.(*ssa.Call); ok {
+						n++
+						cmps := []Cmp{errNilCmp(v)}
+						if sp.method == "Initialize" {
+							cmps = append(cmps, isTrue(vpField(x.P.Field("client.AttachOptions.DisablePresence"))))
+						}
+						x.guardedSite(k+" updater-error-returns", pc, cmps, nil)
+					}
+				}
+			}
+			if n < 4 {
+				x.C.Vacuous(x.id()+" sites", n, 4)
 			}
 		}})
 }
